@@ -28,6 +28,10 @@ F1_SCHEMA = """
 rec.a {n:#} x:n.0?(rec.a n) y:int = rec.A n;
 rec.b m:# v:(rec.a m) = rec.B;
 """
+# no mask at all: the kernel's cycle finder sees this one, but its verdict is discarded (kernel.go: `_ = cf.printCycle()`)
+F1U_SCHEMA = """
+rec.c x:%rec.c y:int = rec.C;
+"""
 # elements that occupy zero bytes on the wire (all fields masked out) inside nested sequences
 AMP_SCHEMA = """
 amp.e {n:#} x:n.0?long y:n.1?long = amp.E n;
@@ -95,8 +99,8 @@ def run(ctx):
     if not berr:
         corpus = [c for c in repo_corpus(quick) if c[4] and not (quick and c[0] == 'goldmaster')]
         vrng = random.Random(ctx.rng.getrandbits(64))
-        specs = corpus + [fixed_unit(ctx, "f1", F1_SCHEMA), fixed_unit(ctx, "amp", AMP_SCHEMA)] + \
-            [fixed_unit(ctx, f"fv{i}", tlb.f1_variant(vrng)) for i in range(2 if quick else 12)] + sane_specs(ctx, 8 if quick else 40)
+        specs = corpus + [fixed_unit(ctx, "f1", F1_SCHEMA), fixed_unit(ctx, "f1u", F1U_SCHEMA), fixed_unit(ctx, "amp", AMP_SCHEMA)] + \
+            [fixed_unit(ctx, f"fv{i}", tlb.f1_variant(vrng)) for i in range(2 if quick else 12)] + sane_specs(ctx, 6 if quick else 40)
         units = prepare_units(ctx, specs, bins, driver_files=DRIVER_FILES)
     log('[C08] units ready', round(time.time() - ctx.t0))
     nvals = 3 if quick else 20
@@ -111,7 +115,7 @@ def run(ctx):
 
     def work(u):
         rng = rngs[u.name]
-        is_repo = not (u.name.startswith(("rs", "fv")) or u.name in ("f1", "amp"))
+        is_repo = not (u.name.startswith(("rs", "fv")) or u.name in ("f1", "f1u", "amp"))
         if u.kernel_rejected and not is_repo:
             with lock:
                 stats["kernel_rejected"] += 1
